@@ -4,6 +4,7 @@ import (
 	"bytes"
 	"errors"
 	"fmt"
+	"google.golang.org/protobuf/encoding/protowire"
 	"os"
 	"reflect"
 	"runtime"
@@ -29,6 +30,7 @@ import (
 // runtimeOps are the owning runtime's own functions for a flavour.
 type runtimeOps struct {
 	marshal   func(m any) ([]byte, error)
+	size      func(m any) int
 	unmarshal func(b []byte, m any) error
 	clone     func(m any) any
 	equal     func(a, b any) bool
@@ -41,6 +43,7 @@ func opsFor(flavour string) runtimeOps {
 	case "gogo":
 		return runtimeOps{
 			marshal:   func(m any) ([]byte, error) { return gogoproto.Marshal(m.(gogoproto.Message)) },
+			size:      func(m any) int { return gogoproto.Size(m.(gogoproto.Message)) },
 			unmarshal: func(b []byte, m any) error { return gogoproto.Unmarshal(b, m.(gogoproto.Message)) },
 			clone:     func(m any) any { return gogoproto.Clone(m.(gogoproto.Message)) },
 			equal:     func(a, b any) bool { return gogoproto.Equal(a.(gogoproto.Message), b.(gogoproto.Message)) },
@@ -50,6 +53,7 @@ func opsFor(flavour string) runtimeOps {
 	case "gv1":
 		return runtimeOps{
 			marshal:   func(m any) ([]byte, error) { return golangproto.Marshal(m.(golangproto.Message)) },
+			size:      func(m any) int { return golangproto.Size(m.(golangproto.Message)) },
 			unmarshal: func(b []byte, m any) error { return golangproto.Unmarshal(b, m.(golangproto.Message)) },
 			clone:     func(m any) any { return golangproto.Clone(m.(golangproto.Message)) },
 			equal:     func(a, b any) bool { return golangproto.Equal(a.(golangproto.Message), b.(golangproto.Message)) },
@@ -59,6 +63,7 @@ func opsFor(flavour string) runtimeOps {
 	}
 	return runtimeOps{
 		marshal:   func(m any) ([]byte, error) { return proto.Marshal(m.(proto.Message)) },
+		size:      func(m any) int { return proto.Size(m.(proto.Message)) },
 		unmarshal: func(b []byte, m any) error { return proto.Unmarshal(b, m.(proto.Message)) },
 		clone:     func(m any) any { return proto.Clone(m.(proto.Message)) },
 		equal:     func(a, b any) bool { return proto.Equal(a.(proto.Message), b.(proto.Message)) },
@@ -147,7 +152,24 @@ func runC11(cfg *config, res *monitor.Result) {
 				// Size
 				evals++
 				if sz := csproto.Size(gen); sz != len(b1) {
-					viol("Size", "ne-marshal-len", fmt.Sprintf("csproto.Size=%d, csproto.Marshal returned %d bytes", sz, len(b1)), d)
+					// is the owning runtime at one with itself on this value? (gogo's generated sizer skips a proto3 -0.0 that
+					// gogo's table-driven marshaler writes): if not, its own Size is the yardstick
+					fr, _ := build(t, d)
+					rsz := ops.size(fr)
+					rb, rerr := ops.marshal(fr)
+					if own, ok := gen.(interface{ Size() int }); ok && !t.pkg.Fast && own.Size() == sz {
+						// a plain type that brings its own Size() method (gogo's sizer plug-in): csproto.Size is documented to use it.
+						// gogo's generated sizer and gogo's table-driven marshaler disagree on a proto3 -0.0 (skipped vs written);
+						// that is between gogo's two code generators, csproto hands out the type's own answer
+						classes["type-own-Size-ne-runtime-marshal-len/"+t.pkg.Flavour+"/"+t.pkg.OptKey]++
+					} else if rerr == nil && rsz != len(rb) {
+						classes["runtime-size-ne-its-own-marshal-len/"+t.pkg.Flavour+"/"+t.pkg.OptKey]++
+						if sz != rsz {
+							viol("Size", "ne-runtime-size", fmt.Sprintf("csproto.Size=%d, the owning runtime's Size=%d (its Marshal returns %d bytes)", sz, rsz, len(rb)), d)
+						}
+					} else {
+						viol("Size", "ne-marshal-len", fmt.Sprintf("csproto.Size=%d, csproto.Marshal returned %d bytes", sz, len(b1)), d)
+					}
 				}
 				// runtime Marshal -> csproto.Unmarshal
 				fresh, _ := build(t, d)
@@ -266,6 +288,35 @@ func runC11(cfg *config, res *monitor.Result) {
 				if err != nil || normText(txt) != normText(ops.text(gen)) {
 					viol("MarshalText", "differs-from-runtime", fmt.Sprintf("csproto.MarshalText differs from the runtime's text marshaler (err=%v)", err), d)
 				}
+				// MarshalText of a message that carries unknown fields, and (first case of a type) of a typed nil pointer
+				if ci%3 == 0 {
+					du := cloneDyn(d)
+					du.SetUnknown(protowire.AppendVarint(protowire.AppendTag(protowire.AppendBytes(protowire.AppendTag(nil, 536870003, protowire.BytesType), []byte("uk")), 536870002, protowire.VarintType), 5))
+					if gu, err := build(t, du); err == nil {
+						evals++
+						var want string
+						if pi := monitor.Try(func() { want = ops.text(gu) }); pi == nil {
+							txt, err := csproto.MarshalText(gu)
+							if err != nil || normText(txt) != normText(want) {
+								viol("MarshalText", "differs-from-runtime:unknown-fields", fmt.Sprintf("csproto.MarshalText of a message with unknown fields differs from the runtime's text marshaler (err=%v)", err), du)
+							}
+						}
+					}
+				}
+				if ci == 0 {
+					typedNil := reflect.Zero(reflect.TypeOf(gen)).Interface()
+					var want string
+					if pi := monitor.Try(func() { want = ops.text(typedNil) }); pi == nil {
+						evals++
+						var txt string
+						var err error
+						if pi := monitor.Try(func() { txt, err = csproto.MarshalText(typedNil) }); pi != nil {
+							viol("MarshalText", "panic:typed-nil", "csproto.MarshalText panicked on a typed nil message: "+pi.Value, d)
+						} else if err == nil && normText(txt) != normText(want) {
+							viol("MarshalText", "differs-from-runtime:typed-nil", fmt.Sprintf("csproto.MarshalText(typed nil) = %q, the runtime's text marshaler gives %q", txt, want), d)
+						}
+					}
+				}
 				// gRPC codec
 				evals++
 				var codec csproto.GrpcCodec
@@ -304,7 +355,12 @@ func runC11(cfg *config, res *monitor.Result) {
 					if err != nil {
 						break
 					}
-					if sz != len(bm) {
+					if own, ok := fresh.(interface{ Size() int }); ok && !t.pkg.Fast && sz != len(bm) && own.Size() == sz {
+						classes["type-own-Size-ne-runtime-marshal-len/"+t.pkg.Flavour+"/"+t.pkg.OptKey]++
+					} else if rsz := ops.size(fresh); sz != len(bm) && rsz != len(bm) && sz == rsz {
+						// the owning runtime's Size disagrees with its own Marshal on this value (see above) and csproto follows it
+						classes["runtime-size-ne-its-own-marshal-len/"+t.pkg.Flavour+"/"+t.pkg.OptKey]++
+					} else if sz != len(bm) {
 						viol("Size", "stale-after-mutation", fmt.Sprintf("after %q on a message sized before, csproto.Size=%d; the owning runtime marshals the current contents to %d bytes", mu.desc, sz, len(bm)), cur)
 						break
 					}
